@@ -105,19 +105,20 @@ Qed.
 
 (* a context provided during a run disappears when the computation re-runs or its children are disposed:
    dispose_children ends by clearing the context list of a surviving node *)
-Lemma dispose_children_clears fx f id s s' :
+Lemma dispose_children_clears fx f id : forall s s',
   dispose_children fx f id s = Ok tt s' ->
   forall nd, nodes s' !! id = Some nd -> n_context nd = [].
 Proof.
-  destruct f as [|f]; [rewrite dispose_children_O; discriminate|rewrite dispose_children_S].
+  induction f as [|f IH]; intros s s'; [rewrite dispose_children_O; discriminate|rewrite dispose_children_S].
   destruct (nodes s !! id) as [nd0|] eqn:Hn.
   2:{ intros H; inversion H; subst. intros nd Hnd. congruence. }
   cbv zeta.
   match goal with |- context [run_cleanups ?a ?b ?c ?d] => destruct (run_cleanups a b c d) as [[] s2|e s2] end; cbn; [|discriminate].
   match goal with |- context [dispose_list ?a ?b ?c ?d] => destruct (dispose_list a b c d) as [[] s4|e s4] end; cbn; [|discriminate].
-  destruct (alive id s4) eqn:Ha.
-  - intros H; inversion H; subst. intros nd. cbn. rewrite lookup_alter.
-    destruct (nodes s4 !! id); cbn; [|discriminate]. intros H1; inversion H1; reflexivity.
-  - destruct fx; [|discriminate]. intros H; inversion H; subst. intros nd Hnd.
-    unfold alive in Ha. rewrite bool_decide_eq_false in Ha. exfalso; apply Ha. eauto.
+  destruct (nodes s4 !! id) as [nd'|] eqn:Hn4.
+  - match goal with |- context [if ?c then _ else _] => destruct c end.
+    + apply IH.
+    + intros H; inversion H; subst. intros nd. cbn. rewrite lookup_alter, Hn4. cbn.
+      intros H1; inversion H1; reflexivity.
+  - destruct fx; [|discriminate]. intros H; inversion H; subst. intros nd Hnd. congruence.
 Qed.
